@@ -182,8 +182,9 @@ def lane(k, queue, lock, done_ids):
                 res["checks"] = {}
                 for p in m["props"]:
                     env = {"LEXVERIF_REPO": wt}
-                    if not (p in ("C13", "C18") and ("builtin" in m["file"] or "char_range" in m["file"])):
-                        env["LEXVERIF_DEV_SKIP_PROOF"] = "1"
+                    if not os.environ.get("MSWEEP_REAL") and \
+                            not (p in ("C13", "C18") and ("builtin" in m["file"] or "char_range" in m["file"])):
+                        env["LEXVERIF_DEV_SKIP_PROOF"] = "1"      # default: skip the proof side (and the translators)
                     t1 = time.time()
                     rc2, o2 = sh("ulimit -v 16000000; exec timeout -k 5 1400 bin/vcheck %s quick" % p, cwd=vf, env=env, timeout=1500)
                     v = [l for l in o2.splitlines() if l.startswith("VIOLATION")]
